@@ -588,8 +588,8 @@ def vis_programs():
     add(vis("visible", "vd0.8", size="flat45", quick=True))
     add(vis("visible-from-obs", "vd2", observer="random", quick=True))
     add(vis_cyclic(quick=True))
-    add(vis3d("vd0.3", "tiny", quick=True))
-    add(vis3d("vd2", "unit", quick=False))
+    add(vis3d("vd0.3", "tiny", quick=False))
+    add(vis3d("vd2", "unit", quick=True))
     for c, v in itertools.product(VIS_CONSTRUCTS, VDS):
         add(vis(c, v))
     for v, cone, face in itertools.product(VDS, CONES, ("", "facing 30 deg", "facing -120 deg")):
